@@ -27,6 +27,7 @@ type Var struct {
 	Cwd      string `json:"cwd"`            // set | parent | unrelated
 	Spelling string `json:"spelling"`       // abs | rel | dot | dslash | updown
 	CLI      bool   `json:"cli"`
+	PreExist bool   `json:"pre_exist,omitempty"` // longer files already sit at the output names
 }
 
 // Case compares a variation with the baseline invocation.
@@ -55,6 +56,8 @@ func spell(p, cwd, how string) string {
 	}
 	return p
 }
+
+var baselineOutputs map[string][]byte
 
 func create(c Case, v Var) (map[string][]byte, string) {
 	root := run.Scratch("c17")
@@ -95,6 +98,12 @@ func create(c Case, v Var) (map[string][]byte, string) {
 	var paths []string
 	for _, n := range names {
 		paths = append(paths, spell(filepath.Join(dir, n), cwd, v.Spelling))
+	}
+	if v.PreExist {
+		for n, b := range baselineOutputs {
+			g := append(append([]byte{}, b...), bytes.Repeat([]byte("stale tail "), 40)...)
+			os.WriteFile(filepath.Join(dir, n), g, 0o644)
+		}
 	}
 	before, _ := fsx.Take(dir)
 	if v.CLI {
@@ -137,7 +146,7 @@ func create(c Case, v Var) (map[string][]byte, string) {
 	after, _ := fsx.Take(dir)
 	out := map[string][]byte{}
 	for _, ch := range fsx.Diff(before, after) {
-		if ch.Kind != "created" {
+		if ch.Kind != "created" && !(v.PreExist && (ch.Kind == "content" || ch.Kind == "mtime")) {
 			return nil, fmt.Sprintf("Create %s %q", ch.Kind, ch.Path)
 		}
 		out[ch.Path] = after[ch.Path].Data
@@ -157,6 +166,7 @@ func check(c Case) string {
 	if msg != "" {
 		return "baseline: " + msg
 	}
+	baselineOutputs = base
 	got, msg := create(c, c.Var)
 	if msg != "" {
 		return "variation: " + msg
@@ -192,6 +202,9 @@ func TestCheck(t *testing.T) {
 		rec.Class("spelling=" + c.Var.Spelling)
 		if c.Var.CLI {
 			rec.Class("cli")
+		}
+		if c.Var.PreExist {
+			rec.Class("outputs-pre-exist")
 		}
 		if len(c.Var.Perm) > 0 {
 			rec.Class("permuted-input-list")
@@ -258,7 +271,8 @@ func TestCheck(t *testing.T) {
 	rapid.Check(t, func(rt *rapid.T) {
 		c := Case{Format: rapid.SampledFrom([]string{"par2", "par2", "par1"}).Draw(rt, "format")}
 		v := Var{G: rapid.SampledFrom([]int{1, 1, 2, 3, 4, 8, 64}).Draw(rt, "g"), Cwd: rapid.SampledFrom([]string{"set", "parent", "unrelated"}).Draw(rt, "cwd"),
-			Spelling: rapid.SampledFrom([]string{"abs", "rel", "dot", "dslash", "updown"}).Draw(rt, "sp"), CLI: rapid.IntRange(0, 3).Draw(rt, "cli") == 0}
+			Spelling: rapid.SampledFrom([]string{"abs", "rel", "dot", "dslash", "updown"}).Draw(rt, "sp"), CLI: rapid.IntRange(0, 3).Draw(rt, "cli") == 0,
+			PreExist: rapid.IntRange(0, 3).Draw(rt, "preexist") == 0}
 		if c.Format == "par2" {
 			c.Slice = scen.GenSlice(rt)
 			ms := 60
